@@ -284,7 +284,10 @@ def check_fetcher(run: Run, prog: Program) -> None:
     vfn = prog.func(f"{STEPS}:MetricFetcher._is_value_valid")
     run.analysed(vfn.qual)
     rets = [n for n in body_walk(vfn.node) if isinstance(n, ast.Return) and n.value is not None]
-    p = vfn.params[1]
+    vparams = [x for x in vfn.params if x not in ("self", "cls")]  # also a @staticmethod
+    if not vparams:
+        raise AnalysisError(f"{vfn.qual}: no value parameter")
+    p = vparams[0]
     want = ("and", frozenset({("isnot", frozenset({p, "None"})),
                               ("not", ("truthy", f"{p}.isnan()")),
                               ("not", ("truthy", f"{p}.isinf()"))}))
